@@ -225,6 +225,72 @@ def run(ctx):
             finding = "simplify-merges-control"
         ctx.check(same, "simplify", segs, "simplify changed the (character, style, control) stream", finding=finding)
         ctx.case("simplify", [eline, MERGE_CTL], enc.line(got), shape=f"n{len(segs)}", sample=f"simplify({segs!r})")
+    # ---- 5. style-level helpers on duck-typed styles (ids; add a b = 100a+b; falsy iff id == 0)
+    class FS:
+        __slots__ = ("id",)
+
+        def __init__(self, i):
+            self.id = i
+
+        def __add__(self, other):
+            return self if other is None else FS(100 * self.id + other.id)
+
+        def __bool__(self):
+            return self.id != 0
+
+        def __eq__(self, other):
+            return isinstance(other, FS) and other.id == self.id
+
+        def __hash__(self):
+            return hash(self.id)
+
+        def update_link(self, link=None):
+            return FS(self.id + 1000)
+
+        @property
+        def without_color(self):
+            return FS(self.id + 2000)
+
+        def __repr__(self):
+            return f"FS({self.id})"
+
+    def fenc(line):
+        return "|".join(f"{enc_str(x.text)};{'-' if x.style is None else x.style.id};{enc_bool(x.is_control)}" for x in line)
+
+    def tc(line):
+        return [(x.text, bool(x.is_control)) for x in line]
+
+    fstyles = [None, FS(0), FS(1), FS(2), FS(7)]
+    n_fs = 6000 if ctx.quick else 120000
+    for i in range(n_fs):
+        segs = [Segment(rng.choice(texts), rng.choice(fstyles), rng.random() < 0.25) for _ in range(rng.randint(0, 4))]
+        st, ps = rng.choice(fstyles[:1] + fstyles[1:]), rng.choice(fstyles)
+        if rng.random() < 0.4:
+            st = None
+        if rng.random() < 0.4:
+            ps = None
+        got = list(Segment.apply_style(list(segs), st, ps))
+        ok = tc(got) == tc(segs) and all(g.style is None for g in got if g.is_control and (st is not None or ps is not None))
+        ctx.check(ok, "apply_style", (segs, st, ps), "apply_style changed a text / control flag, or styled a control segment")
+        ctx.case("apply_style", [fenc(segs), "-" if st is None else st.id, "-" if ps is None else ps.id], fenc(got), shape=f"{st is not None}{ps is not None}", sample=f"apply_style({segs!r},{st!r},{ps!r})")
+        for flag in (False, True):
+            got = list(Segment.filter_control(list(segs), is_control=flag))
+            ctx.check(got == [x for x in segs if bool(x.is_control) == flag], "filter_control", (segs, flag), "filter_control is not the ordered sub-list with that flag")
+            ctx.case("filter_control", [fenc(segs), enc_bool(flag)], fenc(got))
+        got = list(Segment.strip_styles(list(segs)))
+        ctx.check(tc(got) == tc(segs) and all(g.style is None for g in got), "strip_styles", segs, "strip_styles changed text/control or kept a style")
+        ctx.case("strip_styles", [fenc(segs)], fenc(got))
+        got = list(Segment.strip_links(list(segs)))
+        ctx.check(tc(got) == tc(segs), "strip_links", segs, "strip_links changed a text or control flag")
+        ctx.case("strip_links", [fenc(segs)], fenc(got))
+        got = list(Segment.remove_color(list(segs)))
+        ctx.check(tc(got) == tc(segs), "remove_color", segs, "remove_color changed a text or control flag")
+        ctx.case("remove_color", [fenc(segs)], fenc(got), sample=f"remove_color({segs!r})")
+        lines = [[x for x in l] for l in Segment.split_lines([x for x in segs if not x.is_control])]
+        w, h = Segment.get_shape(lines)
+        ctx.check(h == len(lines) and all(sum(x.cell_length for x in l) <= w for l in lines) and (w == 0 or any(sum(x.cell_length for x in l) == w for l in lines)),
+                  "get_shape", lines, "get_shape is not the enclosing rectangle")
+        ctx.case("get_shape", [f"{len(lines)}#" + "/".join(fenc(l) for l in lines)], f"{w} {h}")
     ctx.flush()
     ctx.rule = (
         "all 1,114,112 code points (exhaustive) + every string <= %d over %r x sizes 0..12 / widths 1..6 x positions "
